@@ -1760,6 +1760,31 @@ func (cx *Ctx) iterationConsumer(itFr *Frame) (loopFr *Frame, h *ssa.BasicBlock,
 			break
 		}
 	}
+	if loopFr == nil && itFr != nil && itFr.Fn.Blocks != nil {
+		// the iterator is opened here and walked by a helper it is handed to
+		// (k.iterateQueuedPools(ctx, KVStorePrefixIterator(…), fun))
+		for _, b := range itFr.Fn.Blocks {
+			for _, ins := range b.Instrs {
+				c, ok := ins.(*ssa.Call)
+				if !ok || c.Common().IsInvoke() {
+					continue
+				}
+				g := c.Common().StaticCallee()
+				if g == nil || g.Blocks == nil || !isIrismodFunc(g) || onChain(itFr, g) {
+					continue
+				}
+				passes := false
+				for _, a := range c.Common().Args {
+					if n := namedOf(a.Type()); n != nil && n.Obj().Name() == "Iterator" {
+						passes = true
+					}
+				}
+				if hh := iteratorLoopHeader(g); passes && hh != nil && loopFr == nil {
+					loopFr, h = &Frame{Fn: g, Parent: itFr, Call: c, Depth: itFr.Depth + 1}, hh
+				}
+			}
+		}
+	}
 	if loopFr == nil {
 		return nil, nil, nil, nil, false
 	}
